@@ -16,6 +16,11 @@ const slicePreamble = "(declare-datatypes ((Slice 0)) (((mk-slice (s.arr Int) (s
 
 // smtFor renders the SMT-LIB query of one obligation.
 func (vc *VC) smtFor(o *Obligation, withModel bool) string {
+	return vc.smtForOpt(o, withModel, true)
+}
+
+// smtForOpt renders the query, with or without the engine's quantifier instances.
+func (vc *VC) smtForOpt(o *Obligation, withModel, inst bool) string {
 	var b strings.Builder
 	if withModel {
 		b.WriteString("(set-option :produce-models true)\n")
@@ -28,7 +33,7 @@ func (vc *VC) smtFor(o *Obligation, withModel bool) string {
 	for _, s := range vc.script[:o.Prefix] {
 		b.WriteString(s + "\n")
 	}
-	if !o.ExpectSat {
+	if !o.ExpectSat && inst {
 		for _, s := range preInstantiate(vc.script[:o.Prefix], o.Goal.S+" "+o.Reach.S, 10, 400) {
 			b.WriteString(s + "\n")
 		}
@@ -244,6 +249,9 @@ func solveOne(vc *VC, o *Obligation, cfg solveCfg) {
 		}
 		defer os.Remove(file)
 		q := cfg.fullS / 4
+		if tag == "plain" {
+			q = cfg.fullS * 3 / 4
+		}
 		if q < 3 {
 			q = 3
 		}
@@ -284,6 +292,12 @@ func solveOne(vc *VC, o *Obligation, cfg solveCfg) {
 			if n > 0 && tryWeaker(text, "norec") {
 				return
 			}
+		}
+		// without the engine's own quantifier instances (smaller query; sometimes the
+		// solver's E-matching alone is faster)
+		plain := vc.smtForOpt(o, false, false)
+		if len(plain) != len(vc.smtFor(o, false)) && tryWeaker(plain, "plain") {
+			return
 		}
 	}
 	text := vc.smtFor(o, true)
